@@ -22,10 +22,15 @@ TraceLog == ndJsonDeserialize(IOEnv.VERIF_TRACE)
 
 VARIABLES l, phase, rets,
           bi,     \* burst step: index of the next call of the burst (0: not in a burst)
-          pend    \* race step: indices of the calls not yet applied
-tvars == <<allwvars, l, phase, rets, bi, pend>>
+          pend,   \* race step: indices of the calls not yet applied
+          prets   \* producers whose AddAnyway returned during this step
+tvars == <<allwvars, l, phase, rets, bi, pend, prets>>
 
-TraceInit == l = 1 /\ phase = "ready" /\ rets = {} /\ bi = 0 /\ pend = {} /\ WInitWith("q", 0, 0)
+TraceInit == l = 1 /\ phase = "ready" /\ rets = {} /\ bi = 0 /\ pend = {} /\ prets = {} /\ WInitWith("q", 0, 0)
+
+(* an AddAnyway issued on producer goroutine p ("paddw"): it may stay inside the call *)
+AsAddw(x) == [op |-> "addw", lane |-> x.lane, v |-> x.v, val |-> x.val]
+ProdStep(x) == ProdCall(x.p, AsAddw(x)) /\ prets' = (IF pst'[x.p] = "idle" THEN prets \cup {x.p} ELSE prets)
 
 TReset(e) ==
   /\ phase = "ready"
@@ -34,23 +39,28 @@ TReset(e) ==
   /\ seq' = 0 /\ hist' = <<>> /\ out' = <<>>
   /\ cst' = [c \in Cons |-> "idle"] /\ cany' = [c \in Cons |-> FALSE]
   /\ cres' = [c \in Cons |-> R("none", 0)]
+  /\ pst' = [p \in Prods |-> "idle"] /\ preq' = [p \in Prods |-> NoAdd]
+  /\ pres' = [p \in Prods |-> R("none", 0)]
   /\ last' = [a |-> [op |-> "init"], r |-> Ok]
-  /\ l' = l + 1 /\ UNCHANGED <<phase, rets, bi, pend>>
+  /\ l' = l + 1 /\ UNCHANGED <<phase, rets, bi, pend, prets>>
 
 (* the call of the step *)
 TBegin(e) ==
   /\ phase = "ready" /\ phase' = "settle" /\ l' = l
   /\ CASE e.a.op = "pop" ->
              /\ PopCall(e.a.c, e.a.any)
-             /\ rets' = IF cst'[e.a.c] = "idle" THEN {e.a.c} ELSE {}
-             /\ bi' = 0 /\ pend' = {}
+             /\ rets' = (IF cst'[e.a.c] = "idle" THEN {e.a.c} ELSE {})
+             /\ bi' = 0 /\ pend' = {} /\ prets' = {}
+        [] e.a.op = "paddw" ->
+             /\ ProdStep(e.a)
+             /\ rets' = {} /\ bi' = 0 /\ pend' = {}
         [] e.a.op = "burst" ->       \* nothing has happened yet; the calls follow one by one
-             /\ rets' = {} /\ bi' = 1 /\ pend' = {} /\ UNCHANGED allwvars
+             /\ rets' = {} /\ bi' = 1 /\ pend' = {} /\ prets' = {} /\ UNCHANGED allwvars
         [] e.a.op = "race" ->        \* nothing has happened yet; the calls follow in any order
-             /\ rets' = {} /\ bi' = 0 /\ pend' = 1..Len(e.a.acts) /\ UNCHANGED allwvars
+             /\ rets' = {} /\ bi' = 0 /\ pend' = 1..Len(e.a.acts) /\ prets' = {} /\ UNCHANGED allwvars
         [] OTHER ->
              /\ External(e.a, e.r)
-             /\ rets' = {} /\ bi' = 0 /\ pend' = {}
+             /\ rets' = {} /\ bi' = 0 /\ pend' = {} /\ prets' = {}
 
 (* a burst: one goroutine issues the calls e.a.acts back to back, without waiting for *)
 (* quiescence in between; notified consumers may run between any two of them          *)
@@ -58,7 +68,7 @@ TBurst(e) ==
   /\ phase = "settle" /\ e.a.op = "burst" /\ bi \in 1..Len(e.a.acts)
   /\ External(e.a.acts[bi], e.rs[bi])
   /\ bi' = bi + 1
-  /\ UNCHANGED <<l, phase, rets, pend>>
+  /\ UNCHANGED <<l, phase, rets, pend, prets>>
 
 (* a race: the calls e.a.acts (Pops of distinct consumers, adds, close ...) are issued by *)
 (* different goroutines released together; every call is one mutex hold, so what happened *)
@@ -66,18 +76,25 @@ TBurst(e) ==
 TRace(e) ==
   /\ phase = "settle" /\ e.a.op = "race"
   /\ \E i \in pend :
-       /\ IF e.a.acts[i].op = "pop"
-          THEN /\ PopCall(e.a.acts[i].c, e.a.acts[i].any)
-               /\ rets' = IF cst'[e.a.acts[i].c] = "idle" THEN rets \cup {e.a.acts[i].c} ELSE rets
-          ELSE /\ External(e.a.acts[i], e.rs[i])
-               /\ rets' = rets
+       /\ CASE e.a.acts[i].op = "pop" ->
+               /\ PopCall(e.a.acts[i].c, e.a.acts[i].any)
+               /\ rets' = (IF cst'[e.a.acts[i].c] = "idle" THEN rets \cup {e.a.acts[i].c} ELSE rets)
+               /\ prets' = prets
+            [] e.a.acts[i].op = "paddw" ->
+               /\ ProdStep(e.a.acts[i]) /\ rets' = rets
+            [] OTHER ->
+               /\ External(e.a.acts[i], e.rs[i])
+               /\ rets' = rets /\ prets' = prets
        /\ pend' = pend \ {i}
   /\ UNCHANGED <<l, phase, bi>>
 
 (* notified consumers run, in any order *)
 TWake ==
   /\ phase = "settle"
-  /\ \E c \in Cons : Wake(c) /\ rets' = IF cst'[c] = "idle" THEN rets \cup {c} ELSE rets
+  /\ \/ \E c \in Cons : /\ Wake(c)
+                         /\ rets' = (IF cst'[c] = "idle" THEN rets \cup {c} ELSE rets)
+                         /\ prets' = prets
+     \/ \E p \in Prods : ProdRetry(p) /\ prets' = prets \cup {p} /\ rets' = rets   \* a blocked producer gets on
   /\ UNCHANGED <<l, phase, bi, pend>>
 
 (* quiescence: the logged picture is the stable state *)
@@ -85,10 +102,13 @@ TEnd(e) ==
   /\ phase = "settle" /\ Stable
   /\ (e.a.op = "burst" => bi = Len(e.a.acts) + 1)
   /\ pend = {}
+  /\ \A p \in Prods :
+        IF p \in prets THEN e.pt[p].s = "ret" /\ e.pt[p].r = pres[p]
+                       ELSE e.pt[p].s = pst[p]
   /\ \A c \in Cons :
         IF c \in rets THEN e.st[c].s = "ret" /\ e.st[c].r = cres[c]
                       ELSE e.st[c].s = cst[c]
-  /\ phase' = "ready" /\ rets' = {} /\ bi' = 0 /\ pend' = {} /\ l' = l + 1
+  /\ phase' = "ready" /\ rets' = {} /\ bi' = 0 /\ pend' = {} /\ prets' = {} /\ l' = l + 1
   /\ UNCHANGED allwvars
 
 (* free-running stress, judged at its quiescent end: every consumer returned *)
@@ -103,7 +123,7 @@ StressOK(e) ==
 TStress(e) ==
   /\ phase = "ready"
   /\ IF StressOK(e) THEN TRUE ELSE FALSE      \* (IF: evaluated as a plain state predicate)
-  /\ l' = l + 1 /\ UNCHANGED <<allwvars, phase, rets, bi, pend>>
+  /\ l' = l + 1 /\ UNCHANGED <<allwvars, phase, rets, bi, pend, prets>>
 
 TraceNext ==
   \/ /\ l <= Len(TraceLog)
